@@ -359,6 +359,7 @@ struct Limited {
 
 impl std::fmt::Write for Limited {
     fn write_str(&mut self, s: &str) -> std::fmt::Result {
+        reenter("sink", s);     // a sink may format other values while it is written to
         if self.buf.len() + s.len() > self.cap {
             return Err(std::fmt::Error);
         }
@@ -1662,6 +1663,7 @@ impl FromStr for Fam {
 
     fn from_str(s: &str) -> Result<Self, Self::Err> {
         fam_log(format!("conv:{}", h(s)));
+        reenter("conv", s);     // a user's conversion and hook may use the library themselves
         if fam_bit(0) {
             Err(FamErr::Conv)
         } else {
@@ -1687,6 +1689,7 @@ impl PurlShape for Fam {
             show_quals(&parts.qualifiers),
             h(&parts.subpath)
         ));
+        reenter("hook", &parts.name);
         if fam_bit(2) {
             parts.name = "".into();
         }
@@ -2165,6 +2168,7 @@ impl Hasher for Recorder {
     }
 
     fn write(&mut self, bytes: &[u8]) {
+        reenter("hasher", "v");
         self.0.extend_from_slice(bytes);
     }
 }
